@@ -329,6 +329,11 @@ impl Archive {
             if let Some(het_pos) = self.header.het_table_pos
                 && het_pos != 0
             {
+                // The position is a 64-bit header field: it must not wrap when the archive
+                // does not start at the beginning of the file
+                let het_file_pos = self.archive_offset.checked_add(het_pos).ok_or_else(|| {
+                    Error::invalid_format("HET table position overflows the file offset")
+                })?;
                 let mut het_size = self
                     .header
                     .v4_data
@@ -357,12 +362,7 @@ impl Archive {
                     // HET table key is based on table name
                     let key = hash_string("(hash table)", hash_type::FILE_KEY);
 
-                    match HetTable::read(
-                        &mut self.reader,
-                        self.archive_offset + het_pos,
-                        het_size,
-                        key,
-                    ) {
+                    match HetTable::read(&mut self.reader, het_file_pos, het_size, key) {
                         Ok(het) => {
                             let file_count = het.header.max_file_count;
                             log::info!("Loaded HET table with {file_count} max files");
@@ -379,6 +379,9 @@ impl Archive {
             if let Some(bet_pos) = self.header.bet_table_pos
                 && bet_pos != 0
             {
+                let bet_file_pos = self.archive_offset.checked_add(bet_pos).ok_or_else(|| {
+                    Error::invalid_format("BET table position overflows the file offset")
+                })?;
                 let mut bet_size = self
                     .header
                     .v4_data
@@ -406,8 +409,7 @@ impl Archive {
 
                     // First, check if the BET offset actually points to a HET table
                     // This is a known issue in some MoP update archives
-                    self.reader
-                        .seek(SeekFrom::Start(self.archive_offset + bet_pos))?;
+                    self.reader.seek(SeekFrom::Start(bet_file_pos))?;
                     let mut sig_buf = [0u8; 4];
                     self.reader.read_exact(&mut sig_buf)?;
 
@@ -420,18 +422,12 @@ impl Archive {
                         );
                     } else {
                         // Reset position and proceed with normal BET loading
-                        self.reader
-                            .seek(SeekFrom::Start(self.archive_offset + bet_pos))?;
+                        self.reader.seek(SeekFrom::Start(bet_file_pos))?;
 
                         // BET table key is based on table name
                         let key = hash_string("(block table)", hash_type::FILE_KEY);
 
-                        match BetTable::read(
-                            &mut self.reader,
-                            self.archive_offset + bet_pos,
-                            bet_size,
-                            key,
-                        ) {
+                        match BetTable::read(&mut self.reader, bet_file_pos, bet_size, key) {
                             Ok(bet) => {
                                 let file_count = bet.header.file_count;
                                 log::info!("Loaded BET table with {file_count} files");
@@ -828,9 +824,11 @@ impl Archive {
                 return Ok(true); // Empty table is valid
             }
 
-            // Read raw table data
-            self.reader
-                .seek(SeekFrom::Start(self.archive_offset + offset))?;
+            // Read raw table data (a position that wraps cannot hold the table)
+            let Some(table_pos) = self.archive_offset.checked_add(offset) else {
+                return Ok(false);
+            };
+            self.reader.seek(SeekFrom::Start(table_pos))?;
             match read_exact_vec(&mut self.reader, size) {
                 Ok(table_data) => {
                     // Calculate MD5
@@ -843,7 +841,7 @@ impl Archive {
                 Err(e) => {
                     log::warn!(
                         "Failed to read table data for MD5 validation at offset 0x{:X}, size {}: {}",
-                        self.archive_offset + offset,
+                        table_pos,
                         size,
                         e
                     );
@@ -1675,8 +1673,10 @@ impl Archive {
                 // CRC is calculated on the decompressed data
                 let data_to_check = if file_info.is_compressed() {
                     // We need to decompress first to check CRC
-                    let compression_type = data[0];
-                    let compressed_data = &data[1..];
+                    // (the block table may claim a compressed size of zero)
+                    let Some((&compression_type, compressed_data)) = data.split_first() else {
+                        return Err(Error::compression("Empty compressed data"));
+                    };
                     compression::decompress(
                         compressed_data,
                         compression_type,
@@ -1888,8 +1888,9 @@ impl Archive {
 
             // Decompress if needed
             if file_info.is_compressed() {
-                let compression_type = data[0];
-                let compressed_data = &data[1..];
+                let Some((&compression_type, compressed_data)) = data.split_first() else {
+                    return Err(Error::compression("Empty compressed patch data"));
+                };
 
                 log::debug!(
                     "Decompressing patch file (single unit): method=0x{:02X}, compressed={} bytes → {} bytes",
@@ -1971,7 +1972,11 @@ impl Archive {
 
                 // Patch file sectors use standard MPQ compression (Zlib/BZip2/etc)
                 // First byte indicates compression method, remaining bytes are compressed PTCH data
-                let compression_method = sector_data[0];
+                let Some(&compression_method) = sector_data.first() else {
+                    return Err(Error::compression(format!(
+                        "Patch file sector {i} is empty"
+                    )));
+                };
                 log::debug!(
                     "Decompressing sector {} with method 0x{:02X} ({} bytes compressed)",
                     i,
